@@ -26,7 +26,7 @@ claim("C14",
       "Decides the structural conditions without which finished connections leave residue, on all paths: every completion-report channel "
       "can absorb all reports of its sender goroutines (capacity + guaranteed receives >= sends); after PipeData both ends are closed on "
       "every path (inside it, or in each caller, its defers, or its callers); after a failed AcceptStream no path returns to AcceptStream "
-      "without return / liveness test / back-off. every handler that accepted a connection or stream closes it on each path on which it does not hand it on. Does not measure goroutines, descriptors or CPU.",
+      "without return / back-off (smux IsClosed() does not count: it stays false after a latched socket error). every handler that accepted a connection or stream closes it on each path on which it does not hand it on. Does not measure goroutines, descriptors or CPU.",
       "Not decided: measured footprint, library goroutines, carrier left open after a failed handshake.")
 
 claim("C15",
